@@ -6,6 +6,7 @@ import numpy as np
 import xarray as xr
 from tqdm import trange
 
+from .._verif import emit as _verif_emit
 from .._version import __version__
 from ..data_container import DataContainer
 from ..single import EOF
@@ -76,6 +77,7 @@ class EOFBootstrapper(_BaseBootstrapper, EOF):
         for i in trange(n_bootstraps):
             # Sample with replacement
             idx_rnd = rng.choice(n_samples, n_samples, replace=True)
+            _verif_emit("boot_resample", member=i, idx=idx_rnd.tolist())
             bst_data = input_data.isel({sample_name: idx_rnd})
             # We need to assign the sample coordinates of the real data
             # otherwise the transform() method will raise an error as it
